@@ -232,6 +232,19 @@ CHECKS = {
                 "Pharmacoscan input not modelled.",
         "technique": "Lean 4 proof over the record-conversion model + differential correspondence on generated tabix-indexed VCFs",
     },
+    "C17": {
+        "text": "Lean model of the dump writer/reader (per-site counter compression, expansion, phase-table restriction). Machine-checked for every "
+                "observation list: loading what was written gives a permutation of the original observations (every (mapq, baseq) pair with its "
+                "multiplicity), hence the same count and the same number of qualifying observations for every filter; dropping single-site "
+                "fragments from the phase table does not change the read-phase patterns the minor stage uses. Tie: the pickled counters / loaded "
+                "lists / phase table of real dumps vs the model; and the property itself on the real code: `aldy genotype --debug` through the real "
+                "command line in a fresh interpreter, archive replayed with `aldy genotype <archive>`, output files compared byte for byte and "
+                "solution objects (names, structures, scores, alleles) compared through the API, for one- and two-gene archives.",
+        "design_ref": "DESIGN.md section 4 (C17)",
+        "note": "PARTIAL by nature: pickle/gzip/tar and process start are runtime behaviour covered only by the replay runs; invariance of the "
+                "stages under per-site permutation is proved for counts/filters (C15, C17) and carried to results by the replay tie.",
+        "technique": "Lean 4 proof (multiset round trip by counting) + real-CLI replay correspondence",
+    },
 }
 
 NOT_YET = "check not built yet (work in progress; see DESIGN.md section 9 build order)"
